@@ -29,7 +29,7 @@ CLAIMS["C05"] = {
             "sort provenance tag; the values of merged Literal members are concatenated as they are; T? only under len == 2 and a "
             "none member), that all nine positions call the same translator pair, and that the analyser never writes into "
             "mypy's node / type objects (typed inventory of attribute and item stores), so every position translates the type "
-            "mypy analysed - this last rule found that list-typed class attributes were translated from unanalysed arguments "
+            "mypy analysed (type aliases are expanded and unions flattened through them, Final[T] translates the analysed T) - the store inventory found that list-typed class attributes were translated from unanalysed arguments "
             "(repaired). These are necessary conditions extracted as tables from the code by partitioned abstract "
             "interpretation; agreement with an independent reference translation of arbitrary annotation text is not decided.",
     "note": TRUST + "Reference tables are the ones the property statement lists.",
@@ -56,7 +56,8 @@ CLAIMS["C20"] = {
             "and only calls nested declaration emitters with an empty pending set - within a path and across the iterations of a "
             "loop - (so a marker can only be printed directly above the declaration that raised it); the flush prints and empties; the set is reset at module "
             "start; and the guard of each marker, extracted as a truth table over the model features, equals the "
-            "reference table from the property statement.",
+            "reference table from the property statement (classes with abc.ABC among their bases included); the analyser hands every default it does not "
+            "reproduce to the generator as UnknownValue (known finding: only unary expressions and infinite floats are).",
     "note": TRUST + "Loop bodies are analysed once peeled and once generically; cross-iteration interference is decided per loop by combining 'some iteration ends pending' with 'some iteration enters a nested emitter first'.",
     "technique": "typestate over effect traces with callee summaries + guard truth tables by specialisation",
     "ref": "DESIGN.md section 5 C20",
@@ -133,7 +134,8 @@ CLAIMS["C17"] = {
             "and inlines exactly the private ones; the names passed to the inlining are the class's own attribute and method "
             "names computed beforehand; the method filter's truth table over (is_public, private name, already defined, inlined) "
             "equals the reference; recursion continues through private ancestors only and receives the caller's names united "
-            "with the names emitted at the nearer level; an exact qualified-name match wins over the fuzzy class search; no "
+            "with the names emitted at the nearer level; every emitted method, property and attribute is recorded as defined under its Python name; abstract "
+            "classes are treated like any other class; an exact qualified-name match wins over the fuzzy class search; no "
             "memo cache keys ancestor text on less than its inputs. The threading of emitted names between sibling private "
             "bases is violated today (known finding: duplicates for C(_A, _B) and diamonds). Whether the suffix search finds "
             "the intended class when no exact id exists is string matching and not decided.",
@@ -148,7 +150,9 @@ CLAIMS["C03"] = {
             "class mypy declares possible; every leave handler adds the element to the API store and to exactly one owner for every "
             "parent kind the walker can produce (stack-shape analysis); each model collection is emitted by exactly one loop and "
             "each public element by exactly one emitter call whose text is appended; a re-exported declaration is appended to the "
-            "re-export list exactly when its own module drops it and is rendered once there. Known findings: definitions inside "
+            "re-export list exactly when its own module drops it and is rendered once there, takes the alias of its own import only, and members of classes "
+            "bypass the move; in a constructor exactly the members of the instance itself become attributes (also inside tuple targets); an attribute typed "
+            "with a type variable is emitted; own members are recorded under their Python names before inherited ones are filtered. Known findings: definitions inside "
             "compound statements and enums nested in classes are dropped. Not decided: that the two shortest-re-export "
             "computations pick the same target (string matching), name collisions after conversion.",
     "note": TRUST,
@@ -179,8 +183,10 @@ CLAIMS["C11"] = {
             "segment exact; a class not found in the package is added to the imports and to the placeholder set together and "
             "every member of that set gets exactly one placeholder call; module paths are converted the same way at the "
             "package line of module stubs, re-export stubs, placeholder stubs and at the import source; every registered "
-            "import becomes one sorted line. Not decided: that the package named by an import is the package of the file "
-            "that declares the class (two shortest-path heuristics over strings).",
+            "import becomes one sorted line. The two procedures that choose the package of a re-exported declaration (where its stub is "
+            "written, what its imports name) are cross-checked: same tie-breaking order, same comparison, same candidates, kinds and depth "
+            "condition (three known findings: chained re-exports, enums, re-exports from a package that is not shorter). Not decided: the "
+            "matching of arbitrary names inside those procedures.",
     "note": TRUST,
     "technique": "must-call analysis per emitting branch + specialisation of the import bookkeeping + pipeline comparison",
     "ref": "DESIGN.md section 5 C11",
@@ -221,7 +227,8 @@ CLAIMS["C12"] = {
             "finding: enums nested in classes); every id= at the 13 element constructors is _create_id_from_stack(name) or "
             "'<owner id>/<name>' with the element's own name; owners reference children by id; static/class-method/property "
             "flags come from the node being built and superclasses are appended per base in order; 'attribute already defined' "
-            "depends on the owning class only; root detection keeps all packages of minimal depth. Completeness beyond the "
+            "depends on the owning class only; constructor targets other than members of the instance itself add nothing; float defaults are finite; a base "
+            "mypy resolved keeps its qualified name and ids are not shared by several declarations (known findings); root detection keeps all packages of minimal depth. Completeness beyond the "
             "walker's coverage (C03) and alias resolution of superclass names are not decided.",
     "note": TRUST,
     "technique": "abstract values of the serialisers + stack-shape pairing analysis + provenance of id=/flags",
@@ -265,8 +272,9 @@ CLAIMS["C08"] = {
             "each is shown order-insensitive by construction (adds to sets, constant returns) or followed by a sort before any "
             "use; every sort key identifies the elements it orders (no hash-order ties); the eight JSON lists are sorted by id; "
             "no ambient read (time, random, cwd, environment, id/hash used for more than equality) occurs in pipeline code; "
-            "source and output paths are only used resolved; file-system enumerations are sorted or feed an order-independent "
-            "use (for get_api's glob this rests on a recorded, unproved assumption); plus the shared state-reset and write-mode "
+            "source and output paths are only used resolved; library entry points that read ambient state unless an argument pins it (facts read from the "
+            "installed mypy / griffe sources) are called with that argument (known findings: mypy's config discovery and module search path); file-system "
+            "enumerations are sorted or are only walked completely by an order-independent selection; plus the shared state-reset and write-mode "
             "clauses for repeated runs. Three hash-seed dependences found this way were reproduced and repaired. It does not "
             "compare two runs: equality of outputs and determinism of mypy/griffe are not decided.",
     "note": TRUST + "Loop iterables are typed by mypy run as a library on the repository (its own dependency); 100% of loop iterables resolved.",
@@ -284,7 +292,12 @@ CLAIMS["C01"] = {
             "rejection, option parsing, decided unreachable by (a)-(c), or covered by a named invariant or library fact (inventory with counts per function: a "
             "new raise is reported); (e) every constant-index subscript has a proven length bound (shape of the defining expression, dominating guards, tuple "
             "types from mypy) or a named invariant; (f) every while loop has a variant and every self-recursive call descends structurally; (g) mypy, run as a "
-            "library on the repository, reports no attribute / call / index error against the installed library versions. Nine crash classes found this way "
+            "library on the repository, reports no attribute / call / index error against the installed library versions, no silenced diagnostic of that kind "
+            "is left without a reason, attributes the library model declares Optional are not dereferenced unguarded on receivers mypy types as Any, and the "
+            "documented failures of griffe's load() are handled (known finding); (h) every named type the analyser builds has a constant, guarded or "
+            "library-guaranteed qualified name; (i) text writes of source-derived text use a tolerant error handler, relative_to() never meets a path "
+            "re-assembled from its parts, and the walker's two enum decisions agree. Reasons of the kind 'the library guarantees it' are assumptions: five of "
+            "them were refuted by runtime probes of sub-agents and turned into reported findings, all repaired. Nine crash classes found this way "
             "were reproduced with the real CLI and repaired ('return a + b', 'self.d[k] = 1', 'class Ints(Sequence[int])', 'helpers.helper()', enum methods, "
             "'X: Final = 1', internal superclass of another library, unresolved numpydoc type names, CallableType.bound_args); two remain as listed findings "
             "(PEP 695 class with a Sequence base; self-inlining through the fuzzy class lookup). Exceptions raised inside mypy / griffe / the standard library, "
